@@ -259,9 +259,26 @@ func c12fp(g *vh.JGen) string {
 	case 2:
 		return hexs([]int{0, 1, 2, 38, 39, 41, 42, 63, 65, 66, 80}[g.Rng.Intn(11)], "0123456789ABCDEF")
 	case 3:
-		s := []byte(hexs(40, "0123456789ABCDEF"))
-		bad := "gG xZ-\x00\xff"
-		s[g.Rng.Intn(40)] = bad[g.Rng.Intn(len(bad))]
+		// one non-hex byte in an otherwise valid fingerprint (both lengths): any ASCII byte, with a bias towards
+		// bytes one bit away from a hex digit (what a hand-rolled, case-folding decoder gets wrong)
+		n := []int{40, 64}[g.Rng.Intn(2)]
+		s := []byte(hexs(n, "0123456789ABCDEFabcdef"))
+		for tries := 0; tries < 100; tries++ {
+			var c byte
+			switch g.Rng.Intn(3) {
+			case 0:
+				c = "gG xZ-\x00\xff"[g.Rng.Intn(8)]
+			case 1:
+				c = byte(g.Rng.Intn(128))
+			default:
+				d := "0123456789abcdefABCDEF"[g.Rng.Intn(22)]
+				c = d ^ byte(1<<uint(g.Rng.Intn(7)))
+			}
+			if !strings.ContainsRune("0123456789abcdefABCDEF", rune(c)) {
+				s[g.Rng.Intn(n)] = c
+				break
+			}
+		}
 		return string(s)
 	case 4:
 		return hexs(38, "0123456789ABCDEF") + "é"
